@@ -3,6 +3,7 @@ package rules
 import (
 	"fmt"
 	"go/token"
+	"go/types"
 	"regexp"
 	"strings"
 
@@ -420,8 +421,145 @@ func (c *Ctx) MULTIDOC(rule string) []report.Obligation {
 			}
 		}
 	}
-	return []report.Obligation{verdict(good && eof, rule, "loadYamlFile :: one pipeline run per decoded document until EOF", c.P.Pos(f.Pos()),
+	out := []report.Obligation{verdict(good && eof, rule, "loadYamlFile :: one pipeline run per decoded document until EOF", c.P.Pos(f.Pos()),
 		"Decode and the per-document closure are called in the same loop, which ends on io.EOF", "only the first YAML document of a file is processed (or the loop does not end on EOF)")}
+	// the !reset / !override paths recorded while decoding one document must not leak into the next:
+	// the processor decoded into is allocated per document, or its UnmarshalYAML clears `paths` first
+	perDoc := false
+	if len(dec) == 1 {
+		for _, a := range dec[0].Common().Args {
+			v := a
+			if mi, ok := v.(*ssa.MakeInterface); ok {
+				v = mi.X
+			}
+			if u, ok := v.(*ssa.UnOp); ok {
+				if cv := c.cellValue(u.X); cv != nil {
+					v = cv
+				}
+			}
+			if al, ok := v.(*ssa.Alloc); ok && recvTypeName(al.Type()) == "ResetProcessor" && fi.InLoop(al.Block()) {
+				perDoc = true
+			}
+		}
+	}
+	clears := false
+	if um := c.P.Func("loader.(*ResetProcessor).UnmarshalYAML"); um != nil {
+		rr := c.callsTo(um, "loader.(*ResetProcessor).resolveReset")
+		for _, b := range um.Blocks {
+			for _, in := range b.Instrs {
+				if st, ok := in.(*ssa.Store); ok {
+					if fa, ok := st.Addr.(*ssa.FieldAddr); ok && fieldName(fa) == "paths" && len(rr) > 0 && prog.InstrDominates(in, rr[0]) {
+						if isNilOrConst(st.Val) {
+							clears = true
+						}
+					}
+				}
+			}
+		}
+	}
+	out = append(out, verdict(perDoc || clears, rule, "loadYamlFile :: reset/override paths are per document", c.P.Pos(f.Pos()),
+		"the ResetProcessor a document is decoded into is allocated inside the document loop (or UnmarshalYAML clears its recorded paths)",
+		"one ResetProcessor accumulates the !reset / !override paths of all documents of a file: paths recorded for document k are applied again before every later document, deleting what those documents (re)define"))
+	return out
 }
 
 var _ = report.Info
+
+// TREE: the YAML trees the loader builds stay trees. ORD's "disjoint per key"
+// argument and the in-place mergers rely on no map / slice being stored under
+// two different keys. Inside a loop, storing a loop-invariant map or slice
+// (created before the loop) under a varying key or index makes every entry
+// alias one object: a later in-place merge of one entry then changes the others,
+// and which change wins depends on iteration order.
+func (c *Ctx) TREE(rule string, entry ...string) []report.Obligation {
+	var out []report.Obligation
+	r, missing := c.Reach(entry...)
+	for _, m := range missing {
+		out = append(out, anchorViolation(rule, m))
+	}
+	n := 0
+	for _, f := range r.Sorted(c.P) {
+		switch c.P.Rel(pkgOfFn(f)) {
+		case "override", "transform", "loader", "interpolation", "paths", "validation":
+		default:
+			continue
+		}
+		fi := prog.Info(f)
+		for _, b := range f.Blocks {
+			if !fi.InLoop(b) {
+				continue
+			}
+			for _, in := range b.Instrs {
+				var val, key ssa.Value
+				switch x := in.(type) {
+				case *ssa.MapUpdate:
+					val, key = x.Value, x.Key
+				case *ssa.Store:
+					ia, ok := x.Addr.(*ssa.IndexAddr)
+					if !ok {
+						continue
+					}
+					val, key = x.Val, ia.Index
+				default:
+					continue
+				}
+				if _, isConst := key.(*ssa.Const); isConst {
+					continue
+				}
+				// the key must vary with the loop (defined inside it); a loop-invariant key names one slot
+				kd, kIsInstr := key.(ssa.Instruction)
+				if !kIsInstr || !(kd.Block() == b || fi.Reaches(b, kd.Block())) {
+					continue
+				}
+				// the containers the stored value may be (looking through interface conversions and phis)
+				for _, v := range containerSources(val, 4) {
+					n++
+					def, isInstr := v.(ssa.Instruction)
+					invariant := !isInstr // parameters / free variables are loop invariant
+					if isInstr {
+						// defined in a block that the store's block cannot reach again: created once, before the loop
+						invariant = def.Block() != b && !fi.Reaches(b, def.Block())
+					}
+					k := c.P.FuncID(f) + " :: store of " + c.P.KeyTerm(v, 2) + " under a varying key"
+					if invariant {
+						out = append(out, bad(rule, k, c.P.InstrPos(in), "the same map/slice object (created before the loop) is stored under several keys: the entries alias each other, so an in-place merge or default applied to one of them changes all, and the survivor depends on iteration order"))
+					} else {
+						out = append(out, ok2(rule, k, c.P.InstrPos(in), "the stored container is created (or selected) per iteration"))
+					}
+				}
+			}
+		}
+	}
+	c.Stats[rule+".stores"] = n
+	if n == 0 {
+		out = append(out, bad(rule, "inventory", "", "no container store inside a loop found: the rule sees nothing"))
+	}
+	return out
+}
+
+// containerSources: the map / slice typed values v may carry, looking through MakeInterface, ChangeType and phis.
+func containerSources(v ssa.Value, depth int) []ssa.Value {
+	if v == nil || depth == 0 {
+		return nil
+	}
+	if _, isConst := v.(*ssa.Const); isConst {
+		return nil
+	}
+	switch v.Type().Underlying().(type) {
+	case *types.Map, *types.Slice:
+		return []ssa.Value{v}
+	}
+	switch x := v.(type) {
+	case *ssa.MakeInterface:
+		return containerSources(x.X, depth-1)
+	case *ssa.ChangeType:
+		return containerSources(x.X, depth-1)
+	case *ssa.Phi:
+		var out []ssa.Value
+		for _, e := range x.Edges {
+			out = append(out, containerSources(e, depth-1)...)
+		}
+		return out
+	}
+	return nil
+}
